@@ -10,8 +10,9 @@ Mirrors (pinned commit):
   * `crates/config/src/transform/mod.rs:32-64`           `Transform::deserialize` (order) and
         `apply_transform` (steps applied in that order, each writing its own key)
   * `crates/config/src/combined.rs:132-136`              `CombinedScan::new` sorts by (has fix, id)
-  * `crates/core/src/meta_var.rs:112-128`                `match_constraints` (iterates a `HashMap`
-        while threading one environment)
+  * `crates/core/src/meta_var.rs:112-136`                `match_constraints` (since ec1c602: the
+        constrained captures of the `HashMap` are collected, sorted by variable name and visited in
+        that order while threading one environment)
 
 The hash maps of the code are association lists here; the *iteration order* of a map is the order
 of the list, so "independent of hash order" is a statement about permutations of the list.
@@ -145,8 +146,9 @@ abbrev CEnv (α V : Type) := α → Option V
 extend the environment or fail (`match_node_with_env(candidate, &mut env)`). -/
 abbrev Constraint (α V : Type) := CEnv α V → Option (CEnv α V)
 
-/-- `match_constraints`: `vars` is the iteration order of `single_matched` (a `HashMap`); for
-every variable with a constraint the matcher runs on the evolving environment. -/
+/-- The loop of `match_constraints` over a list of variables: for every variable with a
+constraint the matcher runs on the evolving environment. Before ec1c602 the list was the
+iteration order of `single_matched` (a `HashMap`) itself. -/
 def matchConstraints (cons : α → Option (Constraint α V)) : List α → CEnv α V → Option (CEnv α V)
   | [], e => some e
   | x :: xs, e =>
@@ -156,6 +158,29 @@ def matchConstraints (cons : α → Option (Constraint α V)) : List α → CEnv
       match c e with
       | none => none
       | some e' => matchConstraints cons xs e'
+
+/-- `String` ordering on variable names: lexicographic by code point (= UTF-8 byte order).
+Restated from `Model/Rule.lean` (`AGV.nameLe`; equality: `AGV.C13.nameLe_eq_rule`). -/
+def nameLe : List Char → List Char → Bool
+  | [], _ => true
+  | _ :: _, [] => false
+  | a :: as, b :: bs => if a.toNat < b.toNat then true else if a.toNat > b.toNat then false else nameLe as bs
+
+/-- insertion before the first element that is not smaller (`Model/Rule.lean`: `insertByName`) -/
+def insertByLe (le : α → α → Bool) (x : α) : List α → List α
+  | [] => [x]
+  | y :: ys => if le x y then x :: y :: ys else y :: insertByLe le x ys
+
+/-- `constrained.sort_by(|a, b| a.0.cmp(b.0))` on the variable names (`Model/Rule.lean`:
+`sortByName`; the names of a map are pairwise different, so stability plays no role) -/
+def sortByLe (le : α → α → Bool) (l : List α) : List α := l.foldr (insertByLe le) []
+
+/-- `match_constraints` since ec1c602: `vars` is the iteration order of `single_matched`; the
+variables that have a constraint are collected (`filter … contains_key`), sorted by name, and
+the loop runs over that list. -/
+def matchConstraintsSorted (le : α → α → Bool) (cons : α → Option (Constraint α V))
+    (vars : List α) (e : CEnv α V) : Option (CEnv α V) :=
+  matchConstraints cons (sortByLe le (vars.filter (fun x => (cons x).isSome))) e
 
 /-- `MetaVarEnv::insert` of a pattern capture `$X` on a candidate value: bind if unbound,
 otherwise require equality (`match_variable`) -/
